@@ -19,6 +19,7 @@ import numpy as np
 from gridrv.oracles import sph
 
 TYPES = ("cartesian", "radial", "pure", "pure-radial")
+EPS = float(np.finfo(float).eps)
 
 
 def _m_sequence(l):
@@ -119,7 +120,7 @@ def ref_moments(type_mom, L, points, weights, fvals, centers):
     if pts.ndim == 1:
         pts = pts[:, None]
     wf = np.asarray(weights, dtype=np.longdouble) * np.asarray(fvals, dtype=np.longdouble)
-    cols, mags, envs, orders = [], [], [], None
+    cols, mags, envs, amps, orders = [], [], [], [], None
     for c in np.asarray(centers, dtype=float):
         d = pts - c
         B, orders = ref_basis(type_mom, L, d)
@@ -128,14 +129,26 @@ def ref_moments(type_mom, L, points, weights, fvals, centers):
         mags.append(np.abs(Bl) @ np.abs(wf))
         if type_mom in ("pure", "pure-radial"):
             r = np.sqrt(np.sum(d.astype(np.longdouble) ** 2, axis=1))
-            rp = np.array(_powers(r, 2 * L)) @ np.abs(wf)  # rp[k] = sum |w f| r^k
+            pw = np.array(_powers(r, 2 * L))
+            rp = pw @ np.abs(wf)  # rp[k] = sum |w f| r^k
             envs.append(np.array([rp[o[0]] if type_mom == "pure" else rp[o[0] + o[1]] for o in orders]))
+            # conditioning of a polar angle obtained as arccos(z/r): an error eps in z/r is an error eps/sin(phi) in phi
+            # (at most sqrt(2 eps) when z/r rounds to +-1; none when the point is exactly on the axis or at the centre)
+            with np.errstate(all="ignore"):
+                sphi = np.where(r > 0, np.sqrt(np.sum(d[:, :2].astype(np.longdouble) ** 2, axis=1)) / np.where(r > 0, r, 1), 0)
+                amp = np.where(sphi > 0, np.minimum(EPS / np.where(sphi > 0, sphi, 1), np.sqrt(2 * EPS)), np.where(r > 0, EPS, 0.0))
+            ra = pw @ (np.abs(wf) * amp)  # ra[k] = sum |w f| r^k dphi_i
+            deg = [(o[0], o[0]) if type_mom == "pure" else (o[0] + o[1], o[1]) for o in orders]
+            amps.append(np.array([ra[k] * (l + 1) ** 2 for k, l in deg]))
         else:
             envs.append(mags[-1])
+            amps.append(np.zeros(len(orders), dtype=np.longdouble))
     if orders is None:
         orders = ref_orders(type_mom, L, pts.shape[1])
         z = np.zeros((len(orders), 0))
+        ref_moments.last_amp = z
         return z, z, z, orders
+    ref_moments.last_amp = np.array(amps).T  # sum_i |w f| |d|^deg (l+1)^2 dphi_i  (kept out of the return value: older callers unpack four values)
     return np.array(cols).T, np.array(mags).T, np.array(envs).T, orders
 
 
